@@ -8,6 +8,7 @@ use tephra_span::{Pos, SourceTextRef};
 
 pub const K_WS: u32 = 12;
 pub const K_AA: u32 = 13;
+pub const K_HASH: u32 = 14;
 
 /// A token: `kind` decides equality (what the combinators compare); `tag` is the
 /// number of successful scans that preceded the one producing it (stateful
@@ -56,6 +57,7 @@ pub fn kind_name(kind: u32) -> String {
         11 => "}".into(),
         12 => "ws".into(),
         13 => "aa".into(),
+        14 => "#".into(),
         k => format!("other{}", k - 100),
     }
 }
@@ -105,20 +107,26 @@ pub fn passes(mask: u32, t: &Tok) -> bool {
 pub struct Sc {
     pub stateful: bool,
     pub munch: bool,
+    /// state-dependent tokenization: `#` is a token, but only at the start of a
+    /// line (the previous token was whitespace containing a line feed, or there
+    /// was none); elsewhere it is rejected
+    pub hash: bool,
     pub count: u32,
+    pub at_line_start: bool,
     /// total number of `scan` calls made on this object and its ancestors (for C02).
     pub calls: std::rc::Rc<std::cell::Cell<u64>>,
 }
 
 impl std::fmt::Debug for Sc {
     fn fmt(&self, f: &mut std::fmt::Formatter<'_>) -> std::fmt::Result {
-        write!(f, "S{}", self.count)
+        write!(f, "S{}", self.count * 2 + self.at_line_start as u32)
     }
 }
 
 impl Sc {
     pub fn new(id: usize) -> Self {
-        Sc { stateful: id & 1 == 1, munch: id & 2 == 2, count: 0, calls: Default::default() }
+        Sc { stateful: id & 1 == 1, munch: id & 2 == 2, hash: id & 4 == 4, count: 0, at_line_start: true,
+             calls: Default::default() }
     }
 }
 
@@ -129,7 +137,11 @@ impl Scanner for Sc {
         self.calls.set(self.calls.get() + 1);
         let text = source.as_str();
         let c = text[base.byte..].chars().next()?;
-        let kind = kind_of(c)?;
+        let kind = if self.hash && c == '#' {
+            if self.at_line_start { K_HASH } else { return None; }
+        } else {
+            kind_of(c)?
+        };
         let (kind, adv) = if kind == K_WS {
             (K_WS, source.position_after_chars_matching(base, is_ws)?)
         } else if self.munch && c == 'a' && text[base.byte..].starts_with("aa") {
@@ -139,6 +151,7 @@ impl Scanner for Sc {
         };
         let tag = if self.stateful { self.count } else { 0 };
         self.count += 1;
+        self.at_line_start = kind == K_WS && text[base.byte..adv.byte].contains('\n');
         Some((Tok { kind, tag }, adv))
     }
 }
